@@ -214,6 +214,11 @@ def random_svd(ctx, idx, rng):
         with monitor.write_protected(A, q0, q1):
             res = ptn.split_matrix_svd(A, q0, q1, tol)
         oracles.check_svd(ctx, snap[0], snap[1], snap[2], tol, (A, q0, q1), res)
+        if tol == 0 and nA > 0 and isinstance(res, tuple) and len(res) == 4:
+            def later(res=res, A0=snap[0], nA=nA):
+                u, sv, v, q = (np.asarray(x) for x in res)
+                ctx.close('svd.result-still-valid-after-later-calls', float(np.linalg.norm((u * sv) @ v - A0)), 1e-11 * nA, 'an earlier split_matrix_svd result was altered by later calls', {'A': A0})
+            ctx.hold(later)
     if A.flags.writeable and idx % 3 == 0 and nA > 0:
         # history: the SAME array object changed in place and split again
         A *= 3
